@@ -58,33 +58,25 @@ func (p *_RemoveUnusedPass) DoPass() *ast.Module {
 		p.funcs[i].color = white
 	}
 
-Loop:
-	for _, fn := range p.m.Funcs {
-		// start
-		if fn.Name != "" && fn.Name == p.m.Start {
-			p.markFuncReachable(p.funcs[fn.Name])
-			continue
+	// roots: the start function, every table elem entry and every exported function,
+	// defined or imported
+	markRoot := func(name string) {
+		if name == "" {
+			return
 		}
-
-		// table elem
-
-		for _, elem := range p.m.Elem {
-			for _, elemValue := range elem.Values {
-				if fn.Name != "" && fn.Name == elemValue {
-					p.markFuncReachable(p.funcs[fn.Name])
-					continue Loop
-				}
-			}
+		if fn := p.funcs[name]; fn != nil && fn.color == white {
+			p.markFuncReachable(fn)
 		}
-
-		// export
-		for _, exp := range p.m.Exports {
-			if exp.Kind == token.FUNC {
-				if exp.Name != "" && fn.Name == exp.FuncIdx {
-					p.markFuncReachable(p.funcs[fn.Name])
-					continue Loop
-				}
-			}
+	}
+	markRoot(p.m.Start)
+	for _, elem := range p.m.Elem {
+		for _, elemValue := range elem.Values {
+			markRoot(elemValue)
+		}
+	}
+	for _, exp := range p.m.Exports {
+		if exp.Kind == token.FUNC {
+			markRoot(exp.FuncIdx)
 		}
 	}
 
